@@ -145,24 +145,29 @@ SETPROP_POOL = [
 ]
 
 
-def gen_files(rng):
-    """a small acyclic tree of files; file 0 is the problem; a read card may name a file that does not exist"""
+def gen_files(rng, clean=False):
+    """a small acyclic tree of files; file 0 is the problem; unless `clean`, a read card may name a file that does
+    not exist, numbers may collide, a cell may be malformed in three ways or name a missing surface"""
     nfiles = rng.choice([1, 1, 2, 3, 4])
     used = set()
     files = []
+    free = list(range(1, 40))
+    rng.shuffle(free)
     for fid in range(nfiles):
         items = []
-        for _ in range(rng.choice([0, 1, 2, 2, 3, 4])):
+        for _ in range(rng.choice([1, 2, 2, 3, 4]) if clean else rng.choice([0, 1, 2, 2, 3, 4])):
             r = rng.random()
             if r < 0.62:
-                num = rng.randint(1, 7) if rng.random() < 0.8 else rng.choice(sorted(used) or [1])
+                num = free.pop() if (clean or rng.random() < 0.93) else rng.choice(sorted(used) or [1])
                 used.add(num)
-                items.append(["card", num, rng.randint(0, 3), rng.randint(1, 3), rng.random() < 0.04])
+                items.append(["card", num, rng.randint(0, 3), rng.randint(1, 3), (not clean) and rng.random() < 0.03])
             elif r < 0.88:
-                # reads point forward (acyclic) or at a missing file
-                target = rng.randint(fid + 1, max(fid + 1, nfiles)) if rng.random() < 0.9 else 9
-                items.append(["read", target, "ok" if rng.random() < 0.9 else "syntax"])
-            else:
+                # reads point forward (acyclic) or, rarely, at a missing file
+                if fid + 1 < nfiles and (clean or rng.random() < 0.92):
+                    items.append(["read", rng.randint(fid + 1, nfiles - 1), "ok"])
+                elif not clean:
+                    items.append(["read", 9, "ok"] if rng.random() < 0.7 else ["read", 9, "syntax"])
+            elif not clean:
                 items.append(["bad", rng.choice(["syntax", "logThenRaise", "logThenRaise", "raiseOnly"])])
         files.append([fid, items])
     return files
@@ -170,11 +175,15 @@ def gen_files(rng):
 
 def gen_world_case(rng):
     ops = []
-    for _ in range(rng.randint(1, 12)):
+    for p in (0, 1):
+        if rng.random() < 0.8:
+            ops.append(["read", p, gen_files(rng, clean=True), 0])
+    rng.shuffle(ops)
+    for _ in range(rng.randint(1, 12 - len(ops))):
         r = rng.random()
         p = rng.choice([0, 0, 1, 1, 2])
-        if r < 0.36 or not ops:
-            ops.append(["read", p, gen_files(rng), 0 if rng.random() < 0.97 else 5])
+        if r < 0.30 or not ops:
+            ops.append(["read", p, gen_files(rng, clean=rng.random() < 0.35), 0 if rng.random() < 0.97 else 5])
         elif r < 0.62:
             ops.append([rng.choice(["setImp", "setVol", "setNum", "remove"]), p, rng.randint(0, 3), rng.randint(1, 9)])
             if ops[-1][0] == "remove":
@@ -269,9 +278,16 @@ def to_model_case(case, obs):
                     return None
                 types = [table.id(n) for n in info["declared"]]
             mro = [table.id(n) for n in info["value_mro"]]
+            if info.get("parses") is None:
+                return None
+            mops.append(["construct", info["parses"]])  # the harness builds self and value from text first
             mops.append(["set", idx, types, table.id(info["self"]), mro[0], mro])
         elif op[0] == "write":
             mops.append(["write", op[1]])
+        elif op[0] == "read":
+            # the rendered problem file ends with a surface block and a data block of one input each (render_files)
+            files = [[fid, items + ([["other"], ["other"]] if fid == op[3] else [])] for fid, items in op[2]]
+            mops.append(["read", op[1], files, op[3]])
         else:
             mops.append(op)
     return {"fuel": FUEL, "ops": mops}, table
@@ -319,9 +335,24 @@ def canon_impl_world(case, obs, table):
     return out
 
 
+def merge_model(mcase, m):
+    """the model's output has one extra entry per setter call (the construction of its objects): fold it in"""
+    out = []
+    pending_err = None
+    for mop, o in zip(mcase["ops"], m):
+        if mop[0] == "construct":
+            pending_err = o["res"] if o["res"]["t"] == "err" else None
+            continue
+        if pending_err is not None:
+            o = dict(o, res=pending_err)
+            pending_err = None
+        out.append(o)
+    return out
+
+
 def world_compare(case, drv):
     """run one modelled case on both sides; returns (impl canonical, model canonical) or None when out of scope"""
-    r = run_isolated({"ops": case["ops"], "state": True})
+    r = run_isolated({"ops": case["ops"], "state": True, "count_parses": True})
     if "failed" in r:
         return {"failed": r["failed"]}
     mc = to_model_case(case, r["obs"])
@@ -391,7 +422,7 @@ def gen_read_op(rng, pid):
         return ["readtext", pid, {"p.i": PERIODIC_TEXT}, "p.i"]
     if r < 0.78:
         return ["readtext", pid, READ_FIRST_TEXT, "top.i"]
-    return ["read", pid, gen_files(rng), 0]
+    return ["read", pid, gen_files(rng, clean=rng.random() < 0.5), 0]
 
 
 def gen_interleaving(rng):
@@ -698,7 +729,7 @@ def check_world(chk, drv, cases):
         chk.traces_validated += 1
         if isinstance(m, dict) and "error" in m:
             raise MachineryError(f"model driver rejected a case: {m['error']}")
-        if m != r["impl"]:
+        if merge_model(r["mcase"], m) != r["impl"]:
             chk.disagreements_checked += 1
             case = cases[i]
 
@@ -707,7 +738,7 @@ def check_world(chk, drv, cases):
                 rr = world_compare(c, None)
                 if "mcase" not in rr:
                     return False
-                return drv.batch([rr["mcase"]])[0] != rr["impl"]
+                return merge_model(rr["mcase"], drv.batch([rr["mcase"]])[0]) != rr["impl"]
 
             if not differs(case["ops"]):
                 chk.count("flaky:world-disagreement-not-reproduced")
@@ -718,7 +749,7 @@ def check_world(chk, drv, cases):
             chk.broken_obligation(
                 "correspondence",
                 "U-world (Model/World.lean vs input_syntax_reader / parser_base / utilities setters / problem edits)",
-                {"impl": rr.get("impl"), "model": drv.batch([rr["mcase"]])[0] if "mcase" in rr else None},
+                {"impl": rr.get("impl"), "model": merge_model(rr["mcase"], drv.batch([rr["mcase"]])[0]) if "mcase" in rr else None},
                 {"kind": "world", "ops": ops},
             )
     return results
